@@ -352,6 +352,10 @@ def run(chk: Check) -> None:
     # ---- device ids -------------------------------------------------------------------------------------------
     def id_hex_case(x: int) -> None:
         h = f"{x:06X}"
+        if x % 5 == 3:
+            # (the display form of the same id - 'CTL:145038' - was asked for first: what a log viewer does; the id is the id)
+            call(lambda: hex_id_to_dev_id(h, friendly_id=True), show=str)
+            chk.count("id.dec.after_friendly_form")
         out = call(hex_id_to_dev_id, h, show=str)
         D.add("id.dec", [h], out)
         chk.evaluations += 1
